@@ -136,6 +136,48 @@ def window_args_leg(c, wd):
                         None, signature={'window': 'args-not-applied'})
 
 
+MOVE_HOST = '''
+def first(c):
+    x = c + 1  # TP:first
+    return x
+
+
+def second(c):
+    y = c + 2  # TP:second
+    return y
+'''
+
+
+def moved_tracepoint_leg(c, wd):
+    """A tracepoint (fire_count 1) collects once; the service then MOVES it to another line (same id, same arguments):
+    at its new place it is a newly installed tracepoint - it collects once there; moved back, once again."""
+    from .. import rig as R
+    mod, path, marks = R.write_host(wd, MOVE_HOST)
+    base = path.rsplit('/', 1)[-1]
+    rg = R.Rig()
+    try:
+        got = []
+        for place, fn in (('first', mod.first), ('second', mod.second), ('second', mod.second), ('first', mod.first)):
+            rg.install([{'id': 'tp-moving', 'path': base, 'line': marks[place], 'args': {'fire_count': '1'}},
+                        {'id': 'tp-other', 'path': 'elsewhere.py', 'line': 3 + len(got), 'args': {}}])
+            n0 = len(rg.snapshots())
+            rg.clock.set(10 * (len(got) + 1))
+            rg.run(fn, 1, only_file=path)
+            rg.run(fn, 1, only_file=path)
+            got.append(len(rg.snapshots()) - n0)
+        c.traces_validated += 1
+        c.note_case(key=('moved-tracepoint',), nontrivial=True)
+        # installed at `first`: 1; moved to `second`: 1; still at `second` in the next configuration (it stayed installed): 0;
+        # moved back to `first`: 1
+        if got != [1, 1, 0, 1]:
+            p_ = c.save_replay({'kind': 'moved-tracepoint', 'collections': got, 'expected': [1, 1, 0, 1]})
+            c.violation('a fire_count=1 tracepoint installed at one line, moved to another, kept there, moved back collected '
+                        '%s times (two hits each), expected [1, 1, 0, 1]' % got, p_)
+    finally:
+        rg.close()
+        sys.modules.pop(mod.__name__, None)
+
+
 def gate_schedules(c, cfgs, wd, line_level, max_preemptions, max_runs, nthreads=2):
     """Concurrent hits under the cooperative scheduler; every schedule's trace goes to TLC."""
     traces = []
@@ -290,6 +332,7 @@ def run(c):
         meta.append({'cfg': cfg, 'errors': esc, 'hits': 7, 'kind': 'unparsable-text-shared'})
     validate(c, traces, meta, 'history')
     window_args_leg(c, wd)
+    moved_tracepoint_leg(c, wd)
     # concurrent schedules
     traces, meta = gate_schedules(c, RACE_CFGS, wd, line_level=False, max_preemptions=8, max_runs=None)
     validate(c, traces, meta, 'gate-schedule')
